@@ -138,7 +138,17 @@ func (s *Service) proxyToSingleEndpoint(ctx context.Context, w http.ResponseWrit
 	stats.FirstDataMs = time.Since(stats.StartTime).Milliseconds()
 
 	buffer := s.bufferPool.Get()
-	defer s.bufferPool.Put(buffer)
+	// The buffer goes back to the pool only after a stream that ended cleanly. When a stream is
+	// given up (read timeout, cancellation, any error) the goroutine of the last timed read may
+	// still be blocked in Read on this very buffer: bytes that arrive late from the abandoned
+	// backend would be written into memory another request has meanwhile taken from the pool,
+	// and be relayed to that request's client. An abandoned buffer is left to the collector.
+	reusable := false
+	defer func() {
+		if reusable {
+			s.bufferPool.Put(buffer)
+		}
+	}()
 
 	// Separate client and upstream contexts for proper cancellation handling
 	upstreamCtx := ctx
@@ -159,6 +169,7 @@ func (s *Service) proxyToSingleEndpoint(ctx context.Context, w http.ResponseWrit
 	}
 
 	// We've successfully written the response
+	reusable = streamErr == nil && r.Context().Err() == nil && upstreamCtx.Err() == nil
 	duration := time.Since(stats.StartTime)
 	s.RecordResponse(ctx, endpoint, resp.StatusCode, duration, int64(bytesWritten))
 
